@@ -43,6 +43,7 @@ type Runner struct {
 	// tw: the twin API with syntactic validators of the current universe (validators.go; nil: none); twN counts the
 	// twin checks; twLastDec: the bytes whose validated Decode was analysed together with the `enc` line
 	tw        *twin
+	tws       []*twin // all twins of the universe; the op line picks the one it runs on (a function of its text)
 	twN       int
 	twLastDec string
 }
@@ -236,7 +237,7 @@ func (x *Runner) Exec(op string) string {
 	switch f[0] {
 	case "type":
 		x.Env = nil
-		x.tw = nil
+		x.tw, x.tws = nil, nil
 		x.inRange = nil
 		x.typeLine = op
 		if len(f) < 3 {
